@@ -34,6 +34,12 @@ impl Language for Scala {
     ) -> std::io::Result<()> {
         self.begin_file(writable, &data)?;
 
+        // Constants have no Scala rendering: report them like the other back ends
+        // do instead of leaving them out of the output without a word.
+        for c in data.consts.iter() {
+            self.write_const(writable, c)?;
+        }
+
         // Package object to hold type aliases: aliases must be in class or object in Scala 2)
         let unsigned_used = self.unsigned_integer_used(&data);
         if unsigned_used || !data.aliases.is_empty() {
